@@ -12,7 +12,7 @@ TL = "<naive::time::NaiveTime as traits::Timelike>::"
 def run(chk, tier):
     P = Prog("default")
     chk.configs.add("default")
-    for r in (r_boxes, r_delegates, r_with, r_hms, r_offset_copy, r_sub, r_absint):
+    for r in (r_boxes, r_delegates, r_with, r_hms, r_offset_copy, r_sub, r_operators, r_absint):
         chk.guarded(r, P, tier)
     chk.assume("the leap-second stepping rules of overflowing_add_signed / signed_duration_since (which branch applies to which operands) are numerical and not decided")
     return {
@@ -162,3 +162,44 @@ def r_absint(chk, P, tier):
         short = fn.split("::{")[0].split("::")[-1]
         chk.expect(short in known and "naive::time" in fn, fn, "%s builds a NaiveTime with a struct literal" % fn, loc=P.loc(fn, st["ln"]))
     chk.expect(fields_private(P, NT), "private", "NaiveTime has a public field")
+
+
+TIME_OPERATORS = {
+    "std::ops::Add<time_delta::TimeDelta>>::add": {"overflowing_add_signed"},
+    "std::ops::Sub<time_delta::TimeDelta>>::sub": {"overflowing_sub_signed"},
+    "std::ops::Add<offset::fixed::FixedOffset>>::add": {"overflowing_add_offset"},
+    "std::ops::Sub<offset::fixed::FixedOffset>>::sub": {"overflowing_sub_offset"},
+    "std::ops::Add<std::time::Duration>>::add": {"new", "overflowing_add_signed"},
+    "std::ops::Sub<std::time::Duration>>::sub": {"new", "overflowing_sub_signed"},
+    "std::ops::Sub>::sub": {"signed_duration_since"},
+    "std::ops::AddAssign<time_delta::TimeDelta>>::add_assign": {"add"},
+    "std::ops::SubAssign<time_delta::TimeDelta>>::sub_assign": {"sub"},
+    "std::ops::AddAssign<std::time::Duration>>::add_assign": {"add"},
+    "std::ops::SubAssign<std::time::Duration>>::sub_assign": {"sub"},
+}
+
+
+def r_operators(chk, P, tier):
+    """each operator of NaiveTime is a thin wrapper of the checked/overflowing function of the same direction and operand kind (leap-second
+    rules live there); the std-Duration pair reduces by the same modulus"""
+    from rules import callees, consts_in_fn
+    chk.rule("SIB.operators", "NaiveTime operators delegate to the core function of their own direction and operand kind (+ offset -> overflowing_add_offset, - offset -> overflowing_sub_offset, ...); "
+                               "Add<Duration> and Sub<Duration> reduce the duration by the same constants", floor=12)
+    found = 0
+    for n in sorted(P.fns):
+        if not (n.startswith("<naive::time::NaiveTime as std::ops::") and P.has(n)):
+            continue
+        key = n.split(" as ", 1)[1]
+        want = TIME_OPERATORS.get(key)
+        if want is None:
+            chk.bad("unlisted operator " + key, "operator impl %s of NaiveTime is not in the reviewed table" % n, loc=P.loc(n))
+            continue
+        found += 1
+        got = {c.split("::")[-1] for c in callees(P, n) if c.startswith("naive::time::NaiveTime::") or c.startswith("<naive::time::NaiveTime as") or c.startswith("time_delta::TimeDelta::")}
+        chk.expect(got == want, key, "%s calls %s (expected %s)" % (n, sorted(got), sorted(want)), loc=P.loc(n))
+    a = "<naive::time::NaiveTime as std::ops::Add<std::time::Duration>>::add"
+    b = "<naive::time::NaiveTime as std::ops::Sub<std::time::Duration>>::sub"
+    ca = sorted(x for x in consts_in_fn(P, a) if isinstance(x, int) and not isinstance(x, bool))
+    cb = sorted(x for x in consts_in_fn(P, b) if isinstance(x, int) and not isinstance(x, bool))
+    chk.expect(ca == cb and ca, "Duration pair constants", "Add<Duration> reduces with constants %s, Sub<Duration> with %s" % (ca, cb), loc=P.loc(b))
+    chk.expect(found == len(TIME_OPERATORS), "all operators present", "only %d of %d operator impls found" % (found, len(TIME_OPERATORS)))
